@@ -419,6 +419,7 @@ func runC10(p *core.Program, r *core.Report) {
 	c10R10(p, r, f, armOf)
 	// R11: "compiled in a file with the imports it registered": the name a package is imported under is an identifier
 	chainRules(p, r, "R11", "C03", []string{"C03.R5"}, "import names are valid non-keyword identifiers")
+	c10R12(p, r)
 }
 
 // numClass: signed / unsigned / float class of a reflect kind name or a basic type.
@@ -926,4 +927,87 @@ func c10R10(p *core.Program, r *core.Report, f *core.Func, armOf map[string]*ast
 			return true
 		})
 	}
+}
+
+// c10R12: "nil pointers, maps and slices" are values like any other: the value snippet must render them (`nil`,
+// `[]T{}`, `map[K]V{}`), not vanish. A snippet that answers IsNil() == true is skipped by Render, T and Fragments, so the
+// value snippet may answer true only when it holds no value at all - the untyped nil interface. Decided on the IsNil
+// method of the type whose Frag calls Dumper.ValueLit: every return is `<held> == nil` itself, the constant false, or
+// true under a dominating `<held> == nil`; nothing else (no reflection on the held value) decides it.
+func c10R12(p *core.Program, r *core.Report) {
+	const rule = "R12"
+	r.Floor(rule, 1)
+	// the value snippet: the type of pkg/gengo/snippet whose Frag hands its field to ValueLit
+	var frag *core.Func
+	for _, cs := range callersOf(p, "("+core.G("pkg/gengo/internal.Dumper")+").ValueLit", "(*"+core.G("pkg/gengo/internal.Dumper")+").ValueLit") {
+		if core.RelPkg(cs.In.Pkg.PkgPath) == "pkg/gengo/snippet" && cs.In.Root().Decl != nil && cs.In.Root().Decl.Recv != nil && cs.In.Root().Decl.Name.Name == "Frag" {
+			frag = cs.In.Root()
+		}
+	}
+	if frag == nil {
+		r.Anchor(rule, "the Frag method of pkg/gengo/snippet that calls Dumper.ValueLit")
+		return
+	}
+	rt := frag.Info().TypeOf(frag.Decl.Recv.List[0].Type)
+	var isNil *core.Func
+	for _, f := range p.Funcs() {
+		if f.Decl != nil && f.Decl.Recv != nil && f.Decl.Name.Name == "IsNil" && f.Pkg == frag.Pkg && types.Identical(f.Info().TypeOf(f.Decl.Recv.List[0].Type), rt) {
+			isNil = f
+		}
+	}
+	if isNil == nil {
+		r.Anchor(rule, "IsNil of the value snippet")
+		return
+	}
+	isNil = flatten(p, isNil)
+	info := isNil.Info()
+	g := graph(isNil)
+	recv := recvVar(isNil)
+	isHeld := func(e ast.Expr) bool {
+		// a field of interface type of the receiver
+		sel, ok := ast.Unparen(e).(*ast.SelectorExpr)
+		if !ok || core.VarOf(info, sel.X) != recv || recv == nil {
+			return false
+		}
+		_, isIface := info.TypeOf(sel).Underlying().(*types.Interface)
+		return isIface
+	}
+	isHeldNil := func(e ast.Expr) (bool, bool) { // (is the comparison, is ==)
+		b, ok := ast.Unparen(e).(*ast.BinaryExpr)
+		if !ok || (b.Op != token.EQL && b.Op != token.NEQ) {
+			return false, false
+		}
+		if (isHeld(b.X) && constNil(info, b.Y)) || (isHeld(b.Y) && constNil(info, b.X)) {
+			return true, b.Op == token.EQL
+		}
+		return false, false
+	}
+	ast.Inspect(isNil.Body, func(n ast.Node) bool {
+		if _, ok := n.(*ast.FuncLit); ok {
+			return false
+		}
+		ret, ok := n.(*ast.ReturnStmt)
+		if !ok || len(ret.Results) != 1 {
+			return true
+		}
+		res, _ := core.Resolve(info, isNil.Body, ret.Results[0])
+		good := false
+		if is, eq := isHeldNil(res); is && eq {
+			good = true
+		}
+		if tv, has := info.Types[res]; has && tv.Value != nil {
+			if tv.Value.String() == "false" {
+				good = true
+			} else {
+				for _, fct := range g.FactsAt(g.PointOf(ret)) {
+					if is, eq := isHeldNil(fct.Cond); is && eq == fct.Val {
+						good = true
+					}
+				}
+			}
+		}
+		r.Check(good, rule, isNil, "the value snippet is nil only when it holds no value: return "+core.ExprStr(ret.Results[0]), ret.Pos(), "`v.v == nil`, false, or true under v.v == nil",
+			"the value snippet can answer IsNil() == true for a value that is there (a typed nil pointer, slice or map): Render, T and Fragments skip it, and `var S []string = @s` is written without its right-hand side (does not parse) instead of `[]string{}` / `nil`")
+		return true
+	})
 }
